@@ -16,7 +16,7 @@ func init() { Registry["C18"] = C18 }
 func C18(p *ir.Program, r *report.R) {
 	c := C{p, r}
 	r.Floor = 30
-	r.Explain = "Decided (authentication + bounds only): MakeSecretConnection returns a connection only after the remote key is non-nil and its signature over the challenge verified, where (provenance) the challenge is genChallenge of the sorted pair of THIS handshake's ephemeral keys, the key and signature are the fields of the message shareAuthSignature returned, the local side signs that same challenge, and sc.remPubKey has no other writer; in SecretConnection.Read the frame buffer allocation and the chunk slice are dominated by their bounds, the header version/type test precedes any use, nonces advance exactly after a successful Open / every Seal; Write and Read agree on the frame header (leading byte, 4-byte big-endian length at the same offset); Channel.recvPacketMsg appends only within the channel capacity and returns a message only on EOF, resetting the buffer; the connection decodes packets with a non-zero size limit. NOT decided: byte-stream identity and per-channel ordering over all chunkings and interleavings (value/schedule properties), flow control. Observation outside the statement: SecretConnection.RemotePubKey() has no caller — the authenticated key is not compared with the node id the switch uses."
+	r.Explain = "Decided (authentication + bounds only): MakeSecretConnection returns a connection only after the remote key is non-nil and its signature over the challenge verified, where (provenance) the challenge is genChallenge of the sorted pair of THIS handshake's ephemeral keys, the key and signature are the fields of the message shareAuthSignature returned, the local side signs that same challenge, and sc.remPubKey has no other writer; in SecretConnection.Read the frame buffer allocation and the chunk slice are dominated by their bounds, the header version/type test precedes any use, nonces advance exactly after a successful Open / every Seal; Write and Read agree on the frame header (leading byte, 4-byte big-endian length at the same offset); Channel.recvPacketMsg appends only within the channel capacity and returns a message only on EOF, resetting the buffer; the connection decodes packets with a non-zero size limit. ADDED after seeded-change testing: Channel.nextPacketMsg sets EOF exactly under len(rest) <= max (clearing the buffer) and sends a non-final packet only under len(rest) > max; SecretConnection.Read reads frame header and body with io.ReadFull only. NOT decided: byte-stream identity and per-channel ordering over all chunkings and interleavings (value/schedule properties), flow control. Observation outside the statement: SecretConnection.RemotePubKey() has no caller — the authenticated key is not compared with the node id the switch uses."
 	r.Trusted = []string{"crypto.PubKey.VerifyBytes, nacl/secretbox, curve25519", "golang/snappy"}
 
 	// ---- handshake ---------------------------------------------------------------
@@ -193,6 +193,64 @@ func C18(p *ir.Program, r *report.R) {
 		r.Check("K1", "conn.(*MConnection).recvRoutine/packet-size-limit", p.Pos(rr.Pos()), okLim, "packets are decoded with the connection's maximum packet size")
 	}
 	var _ ssa.Value
+
+	// ---- message framing: the last packet of a message carries EOF -----------------------------------
+	// nextPacketMsg cuts ch.sending into packets of at most maxSize bytes; the packet is the last one
+	// exactly when what remains fits (len <= maxSize), and then the send buffer is cleared. Otherwise the
+	// buffer keeps the strictly non-empty rest. With `<` a message of exactly k*maxSize bytes never gets
+	// its EOF and is glued to the next message.
+	{
+		fn := p.Func("libs/p2p/conn", "Channel.nextPacketMsg")
+		name := "conn.(*Channel).nextPacketMsg"
+		n1, n0 := 0, 0
+		for _, st := range p.Stores(p.Field("libs/p2p/conn", "PacketMsg.EOF")) {
+			if st.Fn != fn {
+				continue
+			}
+			fs := ir.FactsAt(st.Instr)
+			switch ir.Render(st.Val) {
+			case "1":
+				n1++
+				r.Check("K11", name+"/EOF=1/rest-fits", p.InstrPos(st.Instr), ir.HasFact(fs, "le(len(ch.sending),ch.maxPacketMsgPayloadSize)"), "EOF is set exactly when the rest fits one packet (len <= max)")
+				cleared := false
+				for _, s2 := range p.Stores(p.Field("libs/p2p/conn", "Channel.sending")) {
+					if s2.Fn == fn && s2.Instr.Block() == st.Instr.Block() && ir.Render(s2.Val) == "nil" {
+						cleared = true
+					}
+				}
+				r.Check("K2", name+"/EOF=1/clears-buffer", p.InstrPos(st.Instr), cleared, "the send buffer is cleared with the last packet")
+			case "0":
+				n0++
+				r.Check("K11", name+"/EOF=0/rest-remains", p.InstrPos(st.Instr), ir.HasFact(fs, "lt(ch.maxPacketMsgPayloadSize,len(ch.sending))"), "a non-final packet is sent only when strictly more than max remains")
+			}
+		}
+		r.Check("K11", name+"/EOF/both-branches", p.Pos(fn.Pos()), n1 == 1 && n0 == 1, fmt.Sprintf("one EOF=1 and one EOF=0 assignment (%d, %d)", n1, n0))
+	}
+
+	// ---- the secret connection reads whole frames ---------------------------------------------------
+	// Header and body of a frame are read with io.ReadFull: a transport may return a frame in several
+	// reads (TCP segments); decoding a partially filled buffer corrupts and desynchronises the stream.
+	{
+		fn := p.Func("libs/p2p/conn", "SecretConnection.Read")
+		name := "conn.(*SecretConnection).Read"
+		var partial []string
+		nFull := 0
+		ir.Instrs(fn, func(in ssa.Instruction) {
+			call, ok := in.(*ssa.Call)
+			if !ok {
+				return
+			}
+			n := ir.CalleeName(call)
+			switch {
+			case n == "io.ReadFull" && strings.HasPrefix(Arg(call, 0), "sc.conn"):
+				nFull++
+			case (n == "io.Reader.Read" || n == "io.ReadWriteCloser.Read" || strings.HasSuffix(n, ".Read")) && strings.HasPrefix(Arg(call, 0), "sc.conn"):
+				partial = append(partial, p.InstrPos(in))
+			}
+		})
+		r.Check("K2", name+"/whole-frame-reads", p.Pos(fn.Pos()), len(partial) == 0 && nFull >= 2, fmt.Sprintf("frame header and body are read with io.ReadFull (%d); plain Read on the transport: %v", nFull, partial))
+	}
+
 }
 
 var _ = report.Discharged
